@@ -56,12 +56,14 @@ Definition others (t : table) : table := List.filter (fun kv => negb (fst kv =? 
 (* the stored value is exactly one line *)
 Fixpoint single_line (b : bytes) : bool :=
   match b with [] => false | [c] => c =? 10 | c :: r => negb (c =? 10) && single_line r end.
-(* C14's statement about the stored bytes, evaluated on the observation alone *)
-Definition members_ok (b t ty : bytes) (v : jv) : bool :=
+(* C14's statement about the stored bytes, evaluated on the observation alone: exactly the three members, the type and the
+   payload's image; created_at must be a string here — that it denotes the event's instant is checked by the harness with
+   Go's time parser (o_decode), since time syntax is not modelled *)
+Definition members_ok (b ty : bytes) (v : jv) : bool :=
   match parse_doc b with
-  | Some (JObj [(k1, JStr t'); (k2, JStr ty'); (k3, v')]) =>
+  | Some (JObj [(k1, JStr _); (k2, JStr ty'); (k3, v')]) =>
       beqb k1 k_created_at && beqb k2 k_event_type && beqb k3 k_payload &&
-      beqb t' (sanitize t) && beqb ty' (sanitize ty) && jv_eqb v' (jimage v)
+      beqb ty' (sanitize ty) && jv_eqb v' (jimage v)
   | _ => false
   end.
 
@@ -90,8 +92,9 @@ Definition run_proc (c : pcase) : list kind :=
      match c_time c, c_payload c, tget fmt_json (o_table o) with
      | Some t, Some v, Some b =>
          (if single_line b then [] else [KLine]) ++
-         (if members_ok b t (c_type c) v then [] else [KParse]) ++
+         (if members_ok b (c_type c) v then [] else [KParse]) ++
          (if o_decode o =? 1 then [] else [KDecode])
+     | Some _, Some _, None => [KParse]          (* success reported but nothing is stored under json *)
      | _, _, _ => []
      end
    else []).
